@@ -191,6 +191,32 @@ func registerIntrinsics(ex *Exec) {
 		}
 		return res, true
 	}
+	// LiveGoroutines: first call sets the baseline (returns 0); later calls let every other goroutine run
+	// until it blocks or ends and return how many goroutines started since the baseline are still alive.
+	I[zz+"LiveGoroutines"] = func(ex *Exec, st *State, args []Value, call ssa.CallInstruction) (Value, bool) {
+		if !st.GBaseSet {
+			st.GBaseSet = true
+			st.GBase = len(st.Gs)
+			return C.BVConst(0, 64), true
+		}
+		// yield until nobody else can run
+		for _, g := range st.Gs {
+			if g.ID != st.Cur && ex.runnable(g) {
+				st.g().Status = GQuiesce
+				return nil, false // re-executed when everything else is blocked or done
+			}
+		}
+		n := 0
+		for _, g := range st.Gs[st.GBase:] {
+			if g.Status != GDone && !(g.Status == GRunnable && len(g.Frames) == 0) {
+				n++
+			}
+		}
+		return C.BVConst(uint64(n), 64), true
+	}
+	I[zz+"Ite"] = func(ex *Exec, st *State, args []Value, call ssa.CallInstruction) (Value, bool) {
+		return C.Ite(args[0].(*smt.Term), args[1].(*smt.Term), args[2].(*smt.Term)), true
+	}
 	I[zz+"Terminates"] = func(ex *Exec, st *State, args []Value, call ssa.CallInstruction) (Value, bool) {
 		if st.TermFuncs == nil {
 			st.TermFuncs = map[string]int{}
